@@ -13,7 +13,7 @@
      track / precond_ok              the boolean tracker of the documented incremental-sync precondition
      row_is m a s S f                row (s,a) of the model holds finite cells equal (==) to f 0 .. f (S-1) *)
 From Coq Require Import List Arith ZArith QArith Bool.
-From AIT Require Import Base.Qx C07.Model C07.Spec C07.ProofsExp C07.ProofsMl C07.ProofsInv C07.ProofsTop C07.ProofsExtra C07.ProofsCoop C07.ProofsCoopMl.
+From AIT Require Import Base.Qx C07.Model C07.Spec C07.ProofsExp C07.ProofsMl C07.ProofsInv C07.ProofsTop C07.ProofsExtra C07.ProofsCoop C07.ProofsCoopMl C07.ProofsSparse.
 Import ListNotations.
 Local Open Scope Q_scope.
 
@@ -271,9 +271,79 @@ Example ex_thompson_nonvacuous : Forall2 Qeq (thompson_row [1#2; 3; 1#4]) [2#15;
   Forall (fun x => 0 < x) [1#2; 3; 1#4].
 Proof. split; repeat constructor. Qed.
 
+(* ---- SparseMaximumLikelihoodModel (positive theorems) ------------------------------------------- *)
+(* [srun fx eg …]: the sparse model over an Eigen experience such as SparseExperience ([eg = true]) or over
+   a non-Eigen experience with the repaired loop ([fx = true], fixes/C07-sparse-noneigen-stale.patch, now
+   in /repo).  [rclose x y]: |x − y| <= 1e-6 — the sparse model overwrites a reward only when it differs
+   by more than 1e-6 (checkDifferentSmall), so its rewards track the mean within that bound, not exactly.
+
+   Simulation: for every op sequence (no precondition) and either flag, wherever the repaired dense model
+   holds a finite cell the sparse model holds an equal one, and the rewards differ by at most 1e-6. *)
+Theorem sparse_simulates_dense : forall fx eg S A pre flag post, (fx || eg = true) ->
+  ops_in_range S A pre = true -> ops_in_range S A post = true ->
+  let md := snd (run true S A pre flag post) in let ms := snd (srun fx eg S A pre flag post) in
+  (forall a s i, (a < A)%nat -> (s < S)%nat -> (i < S)%nat -> forall q, T md a s i = XFin q -> Ts ms a s i == q) /\
+  (forall s a, (s < S)%nat -> (a < A)%nat -> rclose (Rs ms s a) (Rm md s a)).
+Proof. exact sparse_simulates_dense_lemma. Qed.
+Print Assumptions sparse_simulates_dense.
+
+(* every row the tracker classifies RSynced is the empirical distribution; reward within 1e-6 of the mean *)
+Theorem sparse_ml_model_is_empirical : forall fx eg S A pre flag post, (fx || eg = true) ->
+  ops_in_range S A pre = true -> ops_in_range S A post = true ->
+  let m := snd (srun fx eg S A pre flag post) in
+  let h := hist_of (pre ++ post) in
+  forall s a, (s < S)%nat -> (a < A)%nat -> tSt (track S A pre flag post) s a = RSynced ->
+    (0 < countsum h s a)%nat /\ srow_is m a s S (fun i => freq h s a i) /\
+    rclose (Rs m s a) (mean (rewards_of h s a)).
+Proof. exact sparse_ml_model_is_empirical_lemma. Qed.
+Print Assumptions sparse_ml_model_is_empirical.
+
+Theorem sparse_full_sync_is_empirical : forall fx eg S A pre flag post s a, (fx || eg = true) ->
+  ops_in_range S A pre = true -> ops_in_range S A post = true -> (s < S)%nat -> (a < A)%nat ->
+  let m := snd (srun fx eg S A pre flag (post ++ [OSync2 s a])) in
+  let h := hist_of (pre ++ post) in
+  (0 < countsum h s a)%nat ->
+  srow_is m a s S (fun i => freq h s a i) /\ rclose (Rs m s a) (mean (rewards_of h s a)).
+Proof. exact sparse_full_sync_lemma. Qed.
+Print Assumptions sparse_full_sync_is_empirical.
+
+Theorem sparse_incremental_sync_invariant : forall fx eg S A pre flag post s a s1, (fx || eg = true) ->
+  ops_in_range S A pre = true -> ops_in_range S A post = true -> (s < S)%nat -> (a < A)%nat -> (s1 < S)%nat ->
+  precond_ok S A pre flag (post ++ [OSync3 s a s1]) = true ->
+  let m := snd (srun fx eg S A pre flag (post ++ [OSync3 s a s1])) in
+  let h := hist_of (pre ++ post) in
+  (0 < countsum h s a)%nat ->
+  srow_is m a s S (fun i => freq h s a i) /\ rclose (Rs m s a) (mean (rewards_of h s a)).
+Proof. exact sparse_incremental_sync_lemma. Qed.
+Print Assumptions sparse_incremental_sync_invariant.
+
+(* never-visited pairs: identity row, reward exactly 0 *)
+Theorem sparse_unvisited_default : forall fx eg S A pre flag post s a, (fx || eg = true) ->
+  ops_in_range S A pre = true -> ops_in_range S A post = true -> (s < S)%nat -> (a < A)%nat ->
+  never_visited (pre ++ post) s a = true ->
+  let m := snd (srun fx eg S A pre flag post) in
+  srow_is m a s S (fun i => delta i s) /\ Rs m s a = 0.
+Proof. exact sparse_unvisited_default_lemma. Qed.
+Print Assumptions sparse_unvisited_default.
+
+Example ex_sparse_nonvacuous :
+  let post := [ORecord 0 0 1 2; OSync3 0 0 1; ORecord 0 0 0 4; OSync3 0 0 0; ORecord 0 0 1 (-1#2)] in
+  ops_in_range 3 1 post = true /\ precond_ok 3 1 [] true (post ++ [OSync3 0 0 1]) = true /\
+  Ts (snd (srun true false 3 1 [] true (post ++ [OSync3 0 0 1]))) 0 0 1 == 2 # 3 /\
+  Ts (snd (srun false true 3 1 [] false (post ++ [OSync3 0 0 1]))) 0 0 1 == 2 # 3 /\
+  never_visited ([] ++ post ++ [OSync3 0 0 1]) 2 0 = true /\
+  Ts (snd (srun true false 3 1 [] true (post ++ [OSync3 0 0 1]))) 0 2 2 == 1.
+Proof. cbv zeta. repeat split; vm_compute; reflexivity. Qed.
+
+(* the 1e-6 slack on rewards is real: the sparse model keeps 1 while the mean moved to 1 + 5e-7 *)
+Example ex_sparse_reward_lags :
+  let post := [ORecord 0 0 0 1; OSync2 0 0; ORecord 0 0 0 (1000001 # 1000000); OSync2 0 0] in
+  Rs (snd (srun true true 1 1 [] false post)) 0 0 == 1 /\ mean (rewards_of (hist_of post) 0 0) == 2000001 # 2000000.
+Proof. cbv zeta. split; vm_compute; reflexivity. Qed.
+
 (* SparseMaximumLikelihoodModel::sync(s,a), non-Eigen branch, as it stands: first sync with
    visitSum = 2 keeps the identity entry — the row is (1, 1/2, 1/2); repaired loop gives 0 there
-   (fixes/C07-sparse-noneigen-stale.patch). *)
+   (fixes/C07-sparse-noneigen-stale.patch) — the case [fx = false, eg = false] excluded above. *)
 Theorem sparse_noneigen_stale_refuted :
   let e := exp_after 3 1 [ORecord 0 0 1 1; ORecord 0 0 2 1] in
   let m := sml_sync2 false false e (sml_ctor false false (exp_new 3 1) false) 0 0 in
